@@ -1,4 +1,5 @@
 import WS.Lemmas.SrcLaw
+import WS.Lemmas.ReaderRejects
 /-
   C05 — No silent truncation (source level): a cut stream is reported as an error exactly when the
   bytes asked for did not all arrive; what did arrive is delivered unchanged and in order. The
@@ -27,6 +28,17 @@ theorem error_repeats (b : Buf) (h : WF b) (k : Nat) (hk : 0 < k) (he : b.pendin
     (b.read k).2.1 = some b.t.term ∧ (b.read k).2.2.pending = [] := by
   have := read_spec b h k hk
   exact ⟨this.2.2.2.2.1 he, (this.2.2.2.1 _ (this.2.2.2.2.1 he)).1⟩
+
+/-- once NextReader has returned an error it returns the same error on every later call and delivers
+    nothing further (up to the documented 1000-call panic) -/
+theorem error_is_permanent (c : Conn) (e : RErr) (he : c.r.readErr = some e) (hn : c.r.errCount + 1 < 1000) :
+    ∃ c', nextReader c = (.err e, c') ∧ c'.r.readErr = some e ∧ c'.w = c.w ∧ c'.r.hlog = c.r.hlog ∧
+      c'.r.buf = c.r.buf ∧ c'.r.errCount = c.r.errCount + 1 :=
+  ReaderRejects.nextReader_sticky c e he hn
+
+theorem no_data_after_error (c : Conn) (e : RErr) (he : c.r.readErr = some e) (rid k : Nat) :
+    ((mrRead c rid k).1).1 = [] ∧ ((mrRead c rid k).1).2.isSome ∧ (mrRead c rid k).2.w = c.w :=
+  ReaderRejects.mrRead_after_error c e he rid k
 
 /-- non-vacuity: two bytes arrive, four are needed -/
 example :
